@@ -36,6 +36,7 @@ LineEvents(x) ==
     IF x.ev = "send" THEN <<Ev("send", x.g, x.p, "")>>
     ELSE IF x.ev = "resolve" THEN <<Ev("resolve", x.g, 0, x.o)>>
     ELSE IF x.ev = "iter" THEN x.obs \o (IF x.idle THEN <<Ev("idle", 0, 0, "")>> ELSE <<>>)
+    ELSE IF x.ev = "restart" THEN <<>>
     ELSE <<Ev("final", 0, 0, "")>>
 RECURSIVE FlatFrom(_)
 FlatFrom(k) == IF k > NL THEN <<>> ELSE LineEvents(Tr.lines[k]) \o FlatFrom(k + 1)
@@ -110,13 +111,18 @@ IterEnd ==
     /\ Line.idle => Quiescent
     /\ l' = l + 1 /\ oi' = 0 /\ UNCHANGED <<vars, tid>> /\ Progress
 
+ConsumeRestart ==
+    /\ l <= NL /\ Line.ev = "restart"
+    /\ Restart /\ KeepH
+    /\ l' = l + 1 /\ oi' = 0 /\ UNCHANGED tid /\ Progress
+
 ConsumeFinal ==
     /\ l <= NL /\ Line.ev = "final"
     /\ Quiescent /\ \A g \in Groups : infl[g].st = "none" /\ pend[g] = 0
     /\ l' = l + 1 /\ oi' = 0 /\ UNCHANGED <<vars, tid>> /\ Progress
     /\ (l' > NL) => Say([tid |-> Tr.id, done |-> TRUE])
 
-TNext == ConsumeSend \/ ConsumeResolve \/ IterSilent \/ IterObserved \/ IterEnd \/ ConsumeFinal
+TNext == ConsumeSend \/ ConsumeResolve \/ IterSilent \/ IterObserved \/ IterEnd \/ ConsumeRestart \/ ConsumeFinal
 
 \* the spec's own invariants are evaluated in every state of every matching behaviour
 TraceInv == NoOverlap /\ PendingIsLatest
